@@ -868,9 +868,214 @@ def setter_history(g):
     return "function shset(&x, v) { x = v; return 1; }\n%s { %s }\n%s\n" % (ctx, " ".join(st), tail)
 
 
+# ------------------------------------------------------------------------------------------------------------------
+# round 5 families
+# ------------------------------------------------------------------------------------------------------------------
+# one literal per value type: int, float, integral float, nil, string, byte string, char, byte char, numeric string, map, array
+VT_VALUES = [("int", "3"), ("int", "0"), ("int", "-1"), ("flt", "2.5"), ("flt", "0.5"), ("iflt", "3.0"), ("iflt", "1e3"), ("flt", "1e300"), ("flt", "-(log(-1))"),
+             ("nil", "@nil"), ("str", '"ab+"'), ("str", '":"'), ("str", '""'), ("mbs", '@b":"'), ("mbs", '@b"\\xff"'), ("mbs", '@b""'), ("chr", "':'"), ("chr", "'가'"),
+             ("bchr", "@b':'"), ("bchr", "@b'\\xff'"), ("nstr", '"2.5"'), ("nstr", '" 3 "'), ("big", "4611686018427387904"), ("big", "9223372036854775807"),
+             ("map", "m"), ("arr", "r"), ("fun", "shset"), ("rex", "/a+/")]
+VT_VARS = ["FS", "RS", "OFS", "ORS", "CONVFMT", "OFMT", "SUBSEP", "IGNORECASE", "NF", "NR", "FNR", "RSTART", "RLENGTH", "FILENAME", "NUMSTRDETECT", "STRIPRECSPC"]
+# what derives state from the variable (cached string / compiled expression / numeric copy) and then uses it
+VT_USES = ['$0 = "a:b 2.5 c"; print NF, $1, $2;', 'while ((getline l < "in") > 0) c++; close("in"); print c;', '$3 = "q"; print; print NF;', 'print 1.23456789 "", 3.0 "", 1e6 "";',
+           'print m[1, 2], ((1, 2) in m), (2.5, 1) in m;', 'print 1, 2.5; print 3.25;', 'n = split("a:b 2.5 c", ta); print n;', '(getline); print $0, NF, NR;', '("echo a:b 2.5 c" | getline); print $1;',
+           'print ("A" ~ /a/), index("xAy", "a");', '$0 = "x y z"; NF = 2; print; $5 = "w"; print;', 'print length(), NR, FNR;', 'x = 2.5 ""; y = x + 0; print x, y;']
+
+
+def value_type_setter(g):
+    """a special variable takes values of every value type in turn (int, float, integral float, nil, string, byte string, char, byte char, map -> refused),
+    with a use of the state derived from it between the stores, and with CONVFMT/OFMT (which decide how a numeric value of FS/RS/OFS/SUBSEP becomes text) changed
+    between the store that caches the text and the use"""
+    r = g.r
+    g.f("t:vt-setter")
+    name = g.pick(VT_VARS)
+    g.f("vs:" + name)
+    st = ['m[1] = 1; r = hawk::array(1);']
+    for _ in range(g.pick([2, 3, 3, 4, 5])):
+        ty, v = g.pick(VT_VALUES)
+        g.f("vt:" + ty)
+        q = r.random()
+        if q < 0.7:
+            st.append("%s = %s;" % (name, v))
+        elif q < 0.8:
+            st.append("%s %s %s;" % (name, g.pick(["+=", "%=", "**=", "<<=", "%%=", "\\="]), v))
+        elif q < 0.9:
+            st.append("shset(%s, %s);" % (name, v))
+        else:
+            st.append('tx = "0"; sub(/0/, %s, tx); sub(/^/, tx, %s);' % (v if ty not in ("map", "arr", "fun", "rex") else '"a("', name))
+        if r.random() < 0.45:
+            st.append("%s = %s;" % (g.pick(["CONVFMT", "OFMT", "CONVFMT"]), g.pick(['"%d"', '"%.1g"', '"%.30f"', '"%c"', '"%s"', '"%%"', '"%5.2e|"', '"%.0f"', '"%x"', "2.5", "m", '""'])))
+        if r.random() < 0.75:
+            st.append(g.pick(VT_USES))
+    st.append(g.pick(VT_USES))
+    ctx = g.pick(["BEGIN", "BEGIN", "", "NR == 2", "END"])
+    tail = g.pick(["", "", "{ print NF, $1 }", "END { %s }" % g.pick(VT_USES)])
+    return "function shset(&x, v) { x = v; return 1; }\n%s { %s }\n%s\n" % (ctx, " ".join(st), tail)
+
+
+HUGE = ["2147483647", "2147483648", "4294967295", "4294967296", "2305843009213693952", "4611686018427387903", "4611686018427387904", "9223372036854775807",
+        "-9223372036854775807-1", "-1", "-2147483649", "-4294967297", "18446744073709551615", "1e19", "-1e19", "1e308", "2.5e9", '"4294967296"', '@b"2147483648"', "0x7fffffffffffffff"]
+HUGE_CALLS = ["substr(S, H)", "substr(S, 1, H)", "substr(S, H, H2)", "str::substr(S, H, H2)", "str::subchar(S, H)", "index(S, P, H)", "str::index(S, P, H)", "str::rindex(S, P, H)",
+              "match(S, /b/, H)", "str::match(S, /b/, H, q)", 'sprintf("%*d", H, 1)', 'sprintf("%.*f", H, 1.5)', 'sprintf("%*.*s", H, H2, S)', 'sprintf("%-*d|", H, 1)', 'sprintf("%c", H)',
+              'sprintf("%Hd", 1)', 'sprintf("%.Hs", S)', "str::fromcharcode(H)", "str::frombcharcode(H, H2)", "str::tocharcode(S, H)", "str::tonum(S, H)", "split(S, ta, P) + H", "str::repeat(S, H)",
+              "hawk::array(H)[H2]", "hawk::gc_set_threshold(H, H2)", "hawk::gc(H)", "srand(H)", "int(H)", "close(S, H)", "length($H)", "$H", "($H = 1)", "(NF = H)", "(NR = H)", "(ta[H] = 1)",
+              "(r[H] = 1)", "r[H]", "(1 << H)", "(H >> H2)", "(H ** H2)", "(2 ** H)", "(H % H2)", "(H \\ H2)", "math::pow(H, H2)", "math::round(H)", "toupper(H)", "str::trim(S, H)",
+              "str::normspace(H)", "str::isdigit(H)", "hawk::hash(H)", "(S ~ H)", "asort(m, mo, H)", 'getline x < H', "fflush(H)", "(RSTART = H)", "(RLENGTH = H)", "(ARGC = H)", "(FNR = H)"]
+
+
+def huge_counts(g):
+    """every builtin argument that is a position, length, count, width, precision, code point, base or index, with 2^31, 2^32, 2^61, 2^62, 2^63-1, -2^63, -1
+    (as unsigned: 2^64-1), float and string spellings of them; for both character widths of the subject"""
+    g.f("t:huge-counts")
+    st = ['m[1] = 1; r = hawk::array(1, 2, 3); $0 = "a b c";']
+    for _ in range(g.pick([1, 2, 3])):
+        c = g.pick(HUGE_CALLS)
+        g.f("hc:" + re.sub(r"[^A-Za-z:]", "", c)[:16])
+        subj = g.pick(['"abcabc"', '@b"abcabc"', "'b'", "@b'b'", '"가나다b"', '""', '@b""', "12345", "$0"])
+        pat = g.pick(['"b"', '@b"b"', "'b'", "@b'b'", '""', '"bc"'])
+        c = c.replace("H2", g.pick(HUGE)).replace("H", g.pick(HUGE)).replace("S", subj).replace("P", pat)
+        st.append(g.pick(["x = %s; print length(x);", "print %s;", "if (%s) print 1;", "x = x %s;"]) % c)
+    ctx = g.pick(["BEGIN", "BEGIN", "", "END"])
+    return "%s { %s }\n" % (ctx, " ".join(st))
+
+
+RAW_BYTES = ["\x00", "\x00\x00", "\udcff", "\udcfe\udcff", "\udcc3", "\udce2\udc82", "\udcf0\udc90\udc80", "\udced\udca0\udc80", "\udcc0\udc80", "\x01", "\x1b", "\udc80", "a\x00b", "\udcff\x00"]
+RAW_SLOTS = ['BEGIN { x = "aRb"; print x, length(x); }', "BEGIN { x = @b\"aRb\"; print length(x), x; }", "BEGIN { x = 'R'; print x; }", "BEGIN { x = @b'R'; print x; }",
+             '{ if ($0 ~ /aRb/) print; gsub(/R/, "-"); print }', 'BEGIN { FS = "R"; } { print NF, $1 }', 'BEGIN { RS = "R"; } { print NR, $0 }', 'BEGIN { print index("xRy", "R"), substr("aRb", 2, 1); }',
+             'BEGIN { xR = 1; print xR; }', 'BEGIN { print 1; } # comment R\n{ print }', 'BEGIN { printf "R%sR\\n", "R"; print sprintf("%c", "R"); }', 'BEGIN { m["R"] = 1; for (k in m) print k, length(k); delete m["R"]; }',
+             'BEGIN { OFS = "R"; ORS = "R\\n"; $0 = "a b"; $1 = $1; print; }', 'BEGIN { print toupper("aRb"), str::tocharcode("R"), str::trim(" R "), hawk::hash("R"); }', 'BEGIN { print ("R" < "a"), ("R" == @b"R"), ("aR" "b"); }',
+             'BEGIN { getline x < "R"; print "R" > "/dev/null"; close("R"); }', 'BEGIN { split("aRbRc", ta, "R"); print length(ta), ta[1]; print str::split("aRb", tb, @b"R"); }',
+             '@pragma entry R\nBEGIN { print 1 }', '@include "R"\nBEGIN { print 1 }', 'function fR(a) { return a } BEGIN { print fR(1) }', 'BEGIN { print str::tombs("aRb"), str::frommbs(@b"aRb"); print "aRb" ~ "R"; }',
+             'BEGIN { x = "a\\Rb"; y = /a\\Rb/; print x; }', 'BEGIN { print length("R") R; }', 'R', 'BEGIN { print 1 }R', 'BEGIN R{ print 1 }']
+
+
+def raw_bytes_source(g):
+    """NUL bytes and invalid / truncated UTF-8 sequences as raw bytes of the SOURCE text: inside string, byte-string, character and regular-expression literals,
+    identifiers, comments, directives, after an escape, between tokens and at the very end"""
+    g.f("t:raw-bytes")
+    s = g.pick(RAW_SLOTS)
+    b = g.pick(RAW_BYTES)
+    g.f("rb:" + ("nul" if "\x00" in b else "ctl" if b in ("\x01", "\x1b") else "badutf8"))
+    return s.replace("R", b) + g.pick(["\n", "", "\n"])
+
+
+EOF_PROGRAMS = [
+    'function f(a, b) { @local c; c = a + b * 2.5e+3 - 0x1F % 017; return c ** 2; }\nBEGIN { x = "str\\t\\x41\\u00e9\\101" @b"by\\xfftes" \'c\' @b\'\\xfe\' \'\\n\'; y = x ~ /re[a-z\\/]+(x|y){2,3}/ ? f(1, 2) : m["k", 1]; }\n',
+    '@pragma entry main\n@global g1, g2;\nfunction main(a) { g1 = a; printf "%5.2f %s\\n", 1.5, "s" > "/dev/null"; print a, b >> "f1"; "echo x" | getline line; getline < "in"; return 0; }\n',
+    '/start/,/end/ { n++; next } NR == 1 || $1 !~ /^#/ && !($2 in m) { m[$2] = NR; delete m[$1]; } END { for (k in m) { if (k == "x") continue; else break; } do { i--; } while (i > 0); exit 1; }\n',
+    'BEGIN { a[1] = 1; a[1,2] <<= 3; x = a[1] >> 1 & 7 | 8 ^^ 9; y = x++ + ++x - x-- - --x; z = -x + !y + ~x; s = s "cat" 1 2.5; x %%= "q"; x **= 2; x \\= 3; @reset a; @abort; }\n',
+    'BEGIN { x = hawk::array(1, 2); y = hawk::map("a", 1); print str::length(@b"abc"), math::sin(1.0), sys::EPERM; x[0]; (1, 2) in y; getline; getline z; "cmd" || getline w; nextfile; nextofile; }\n',
+    '# comment line\nBEGIN { x = 1 \\\n + 2; # trailing\n y = "a\\\nb"; if (x) ; else if (y) { } for (;;) break; for (i = 0; i < 3; i++) continue; while (1) { exit } switch_ = 1; @include "nofile"\n }\n',
+    'BEGIN { x = 1e; }\n', 'BEGIN { x = 0x; y = 0b12; z = 1.2.3; w = 1e+; }\n', 'BEGIN { print 1 > ; }\n', 'BEGIN { x = @nil; y = @b; z = @; }\n', 'BEGIN { x = "\\x4"; y = "\\u12"; z = "\\U0001"; w = \'\\x\'; v = "\\8"; }\n',
+]
+
+
+def eof_mid_token(g):
+    """a program that ends inside, right before or right after every kind of token (keyword, directive, identifier, module-qualified name, decimal / hex / float literal
+    with exponent, string / byte-string / character / byte-character literal with every escape kind, regular expression, operator of 1-3 characters, comment,
+    line continuation): the reader reaches end-of-input in every scanner state"""
+    g.f("t:eof-mid-token")
+    src = g.pick(EOF_PROGRAMS)
+    toks = [t for t in TOKEN_RE.findall(src)]
+    idx = [i for i, t in enumerate(toks) if not t.isspace()]
+    i = g.pick(idx)
+    t = toks[i]
+    j = g.r.randrange(0, len(t) + 1)
+    kind = "str" if t[:1] in "\"'" or t.startswith("@b") else "num" if t[:1].isdigit() else "word" if (t[:1].isalpha() or t[:1] in "_@") else "op"
+    g.f("eof:%s:%s" % (kind, "mid" if 0 < j < len(t) else "edge"))
+    return "".join(toks[:i]) + t[:j]
+
+
+# sizes around the per-runtime scratch buffers (format.tmp / formatmbs.tmp / format.out / fmt start at 4096 and grow in steps; conversion
+# buffers of 64/128/256/512 cells; io buffers of 2048) and well beyond them
+SCRATCH_SIZES = [60, 64, 65, 127, 128, 129, 255, 256, 257, 511, 512, 513, 2047, 2048, 2049, 4000, 4095, 4096, 4097, 5000, 8191, 8192, 8193, 12000, 20000, 70000, 200000, 300000]
+# (wide form, byte-string twin) of operations that go through per-runtime scratch state; W = a size, V = a value
+SCRATCH_OPS = [('x = sprintf("%Wd", V);', 'x = sprintf(@b"%Wd", V);'), ('printf "%Wd|\n", V > "/dev/null";', 'printf @b"%Wd|\n", V > "/dev/null";'),
+               ('x = sprintf("%*d", W, V);', 'x = sprintf(@b"%*d", W, V);'), ('x = sprintf("%.Wd", V);', 'x = sprintf(@b"%.Wd", V);'), ('x = sprintf("%-Wx|", V);', 'x = sprintf(@b"%-Wx|", V);'),
+               ('x = sprintf("%Ws", "a");', 'x = sprintf(@b"%Ws", @b"a");'), ('x = sprintf("%Ws", @b"a");', 'x = sprintf(@b"%Ws", "a");'), ('x = sprintf("%Wc", 65);', 'x = sprintf(@b"%Wc", 65);'),
+               ('x = sprintf("%W.3f", 1.5);', 'x = sprintf(@b"%W.3f", 1.5);'), ('x = sprintf("%.Wf", 1.5);', 'x = sprintf(@b"%.Wf", 1.5);'), ('x = sprintf("%Wo%Wu", V, V);', 'x = sprintf(@b"%Wo%Wu", V, V);'),
+               ('CONVFMT = "%W.2f"; x = 1.5 "";', 'CONVFMT = "%W.2f"; x = @b"" 1.5;'), ('OFMT = "%W.2f"; print 1.5 > "/dev/null";', 'OFMT = "%W.2f"; print @b"z", 1.5 > "/dev/null";'),
+               ('s = sprintf("%Ws", "Ab"); x = toupper(s); x = tolower(s);', 's = sprintf(@b"%Ws", @b"Ab"); x = toupper(s); x = tolower(s);'),
+               ('s = sprintf("%Ws", "ab"); n = gsub(/ /, "xy", s); x = s;', 's = sprintf(@b"%Ws", @b"ab"); n = gsub(/ /, @b"xy", s); x = s;'),
+               ('s = sprintf("%Ws", "ab"); x = substr(s, 2, W); n = index(s, "b"); n = match(s, /b$/);', 's = sprintf(@b"%Ws", @b"ab"); x = substr(s, 2, W); n = index(s, @b"b"); n = match(s, /b$/);'),
+               ('s = sprintf("%Ws", "a b"); n = split(s, ta, " "); $0 = s; x = $NF;', 's = sprintf(@b"%Ws", @b"a b"); n = split(s, ta, @b" "); $0 = s; x = $NF;'),
+               ('x = str::trim(sprintf("%Ws", "a")); x = str::normspace(sprintf("%Ws  a", "a"));', 'x = str::trim(sprintf(@b"%Ws", @b"a")); x = str::normspace(sprintf(@b"%Ws  a", @b"a"));'),
+               ('x = str::tombs(sprintf("%Ws", "가"));', 'x = str::frommbs(sprintf(@b"%Ws", @b"\\xea\\xb0\\x80"));'), ('x = V ""; y = x + 0;', 'x = @b"" V; y = x + 0;')]
+
+
+def scratch_history(g):
+    """twin sequences with size history: inside ONE runtime the wide and the byte-string variant of the same operation run one after the other, with sizes that
+    straddle the scratch-buffer sizes (4096 and its growth steps, the 64..512-cell conversion buffers, the 2048-cell io buffers) in descending, ascending and
+    mixed order — a variant that consults or reuses the state its twin left behind shows up only after the twin has grown"""
+    r = g.r
+    g.f("t:scratch-history")
+    n = g.pick([2, 3, 3, 4, 5])
+    order = g.pick(["straddle", "straddle", "desc", "asc", "mixed"])
+    if order == "straddle":
+        # one variant grows its buffer well past a boundary, then the twin is asked for a size between the boundary and that size
+        bound = g.pick([64, 128, 256, 512, 2048, 4096, 4096, 4096, 8192])
+        big = g.pick([x for x in SCRATCH_SIZES if x > bound + 1])
+        mid = g.pick([x for x in SCRATCH_SIZES if bound < x <= big])
+        sizes = [big, mid, g.pick(SCRATCH_SIZES)][:max(2, min(n, 3))]
+    else:
+        sizes = [g.pick(SCRATCH_SIZES) for _ in range(n)]
+        if order == "desc":
+            sizes.sort(reverse=True)
+        elif order == "asc":
+            sizes.sort()
+    g.f("sc:" + order)
+    same_op = r.random() < (0.9 if order == "straddle" else 0.6)
+    op = g.pick(SCRATCH_OPS[:5] if r.random() < 0.4 else SCRATCH_OPS)
+    first_wide = r.random() < 0.5
+    st = []
+    for i, w in enumerate(sizes):
+        if not same_op:
+            op = g.pick(SCRATCH_OPS)
+        wide = (i % 2 == 0) == first_wide if r.random() < 0.85 else r.random() < 0.5
+        t = op[0 if wide else 1].replace("CONVFMT", "\x01").replace("W", str(w)).replace("V", g.pick(["1", "7", "-5", "255", "1.5", '"12"', "4611686018427387904"])).replace("\x01", "CONVFMT")
+        st.append(t)
+        if r.random() < 0.5:
+            st.append("c += length(x);")
+    st.append('printf @b"%5d|", 42 > "/dev/null"; printf "%5d|\n", 42; print length(x), c;')
+    ctx = g.pick(["BEGIN", "BEGIN", "", "END"])
+    return "%s { %s }\n" % (ctx, " ".join(st))
+
+
+def far_subscripts(g):
+    """positions far beyond anything that can be allocated (2^28 .. 2^62, one off either side of each power of two, as int, float and string) as subscripts of
+    hawk::array() values: store, read, delete, `in`, nested arrays, after ordinary growth and as the first store; the slot table cannot be allocated and the
+    statement must fail with an error (or succeed), not spin"""
+    r = g.r
+    g.f("t:far-subscript")
+    def far():
+        k = g.pick(list(range(28, 63)))
+        v = (1 << k) + g.pick([-1, 0, 0, 0, 1, 12345])
+        g.f("fs:2^%d" % (k // 6 * 6))
+        return g.pick(["%d", "%d", "%d.0", '"%d"', "(%d + 0)"]) % v
+    st = [g.pick(["x = hawk::array();", "x = hawk::array(1, 2, 3);", "x = hawk::array(); x[0] = 1;", "x = hawk::array(); for (i = 0; i < 100; i++) x[i] = i;", "x = hawk::array(hawk::array(1), 2);"])]
+    for _ in range(g.pick([1, 1, 2, 3])):
+        st.append(g.pick(["x[%s] = 2;", "x[%s] = x;", "print x[%s];", "delete x[%s];", "print (%s in x);", "x[%s] += 1;", "x[%s]++;", "x[0] = x[%s];", "y = hawk::array(); y[%s] = x; x = y;",
+                          "x[0][%s] = 1;", "n = split(\"a b\", x); x[%s] = 1;", "x[%s] = hawk::array(1, 2);", "getline x[%s] < \"in\";", "sub(/^/, \"q\", x[%s]);", "n = str::splita(\"a b c\", x); x[%s] = n;"]) % far())
+    st.append('print "after", length(x);')
+    return "%s { %s }\n" % (g.pick(["BEGIN", "BEGIN", "", "END"]), " ".join(st))
+
+
 def targeted(rng):
     g = Gen(rng)
-    k = rng.randrange(42)
+    k = rng.randrange(64)
+    if k >= 59:
+        return g, scratch_history(g)
+    if k >= 56:
+        return g, far_subscripts(g)
+    if k >= 52:
+        return g, value_type_setter(g)
+    if k >= 48:
+        return g, huge_counts(g)
+    if k >= 45:
+        return g, raw_bytes_source(g)
+    if k >= 42:
+        return g, eof_mid_token(g)
     if k >= 38:
         return g, setter_history(g)
     if k >= 34:
@@ -1006,6 +1211,10 @@ def console_input(rng):
     k = rng.random()
     if k < 0.18:
         return "empty", b""
+    if k < 0.23:
+        return "nul", b"a\x00b c\x00\n\x00\n1\x002 3\nx\x00\x00y z\n" + b"w" * 509 + b"\x00\x00\x00\n" + b"tail\x00"
+    if k < 0.27:
+        return "cututf8", b"\xea\xb0\x80 \xeb\x82\x98 b\n" + b"k" * 510 + b"\xea\xb0\x80\n" + b"z" * 1022 + b"\xf0\x9f\x98\x80 q\nend \xe2\x82"
     if k < 0.50:
         return "lines", b"a b c\n1 2 3\nfoo,bar;baz qux\nA abb C\n\nlast line here\n"
     if k < 0.58:
